@@ -10,9 +10,9 @@ Directives.vos Directives.vok Directives.required_vos: Directives.v Ast.vos
 Erase.vo Erase.glob Erase.v.beautified Erase.required_vo: Erase.v Ast.vo Generated.vo HookSites.vo Directives.vo
 Erase.vio: Erase.v Ast.vio Generated.vio HookSites.vio Directives.vio
 Erase.vos Erase.vok Erase.required_vos: Erase.v Ast.vos Generated.vos HookSites.vos Directives.vos
-Extract.vo Extract.glob Extract.v.beautified Extract.required_vo: Extract.v Ast.vo Generated.vo Config.vo ToConfig.vo SrcMap.vo Model.vo HookSites.vo Known.vo Directives.vo Erase.vo Sites.vo Hygiene.vo Shapes.vo
-Extract.vio: Extract.v Ast.vio Generated.vio Config.vio ToConfig.vio SrcMap.vio Model.vio HookSites.vio Known.vio Directives.vio Erase.vio Sites.vio Hygiene.vio Shapes.vio
-Extract.vos Extract.vok Extract.required_vos: Extract.v Ast.vos Generated.vos Config.vos ToConfig.vos SrcMap.vos Model.vos HookSites.vos Known.vos Directives.vos Erase.vos Sites.vos Hygiene.vos Shapes.vos
+Extract.vo Extract.glob Extract.v.beautified Extract.required_vo: Extract.v Ast.vo Generated.vo Config.vo ToConfig.vo SrcMap.vo Literals.vo Model.vo HookSites.vo Known.vo Directives.vo Erase.vo Sites.vo Hygiene.vo Shapes.vo
+Extract.vio: Extract.v Ast.vio Generated.vio Config.vio ToConfig.vio SrcMap.vio Literals.vio Model.vio HookSites.vio Known.vio Directives.vio Erase.vio Sites.vio Hygiene.vio Shapes.vio
+Extract.vos Extract.vok Extract.required_vos: Extract.v Ast.vos Generated.vos Config.vos ToConfig.vos SrcMap.vos Literals.vos Model.vos HookSites.vos Known.vos Directives.vos Erase.vos Sites.vos Hygiene.vos Shapes.vos
 Generated.vo Generated.glob Generated.v.beautified Generated.required_vo: Generated.v 
 Generated.vio: Generated.v 
 Generated.vos Generated.vok Generated.required_vos: Generated.v 
@@ -28,6 +28,9 @@ JsSide.vos JsSide.vok JsSide.required_vos: JsSide.v SrcMap.vos
 Known.vo Known.glob Known.v.beautified Known.required_vo: Known.v Ast.vo Generated.vo
 Known.vio: Known.v Ast.vio Generated.vio
 Known.vos Known.vok Known.required_vos: Known.v Ast.vos Generated.vos
+Literals.vo Literals.glob Literals.v.beautified Literals.required_vo: Literals.v Ast.vo Generated.vo
+Literals.vio: Literals.v Ast.vio Generated.vio
+Literals.vos Literals.vok Literals.required_vos: Literals.v Ast.vos Generated.vos
 Model.vo Model.glob Model.v.beautified Model.required_vo: Model.v Ast.vo Generated.vo Config.vo
 Model.vio: Model.v Ast.vio Generated.vio Config.vio
 Model.vos Model.vok Model.required_vos: Model.v Ast.vos Generated.vos Config.vos
@@ -52,12 +55,18 @@ P_JsSide.vos P_JsSide.vok P_JsSide.required_vos: P_JsSide.v SrcMap.vos JsSide.vo
 P_Kinds.vo P_Kinds.glob P_Kinds.v.beautified P_Kinds.required_vo: P_Kinds.v Ast.vo Generated.vo Config.vo Model.vo P_OpVisit.vo
 P_Kinds.vio: P_Kinds.v Ast.vio Generated.vio Config.vio Model.vio P_OpVisit.vio
 P_Kinds.vos P_Kinds.vok P_Kinds.required_vos: P_Kinds.v Ast.vos Generated.vos Config.vos Model.vos P_OpVisit.vos
+P_Literals.vo P_Literals.glob P_Literals.v.beautified P_Literals.required_vo: P_Literals.v Ast.vo Generated.vo Literals.vo
+P_Literals.vio: P_Literals.v Ast.vio Generated.vio Literals.vio
+P_Literals.vos P_Literals.vok P_Literals.required_vos: P_Literals.v Ast.vos Generated.vos Literals.vos
 P_Local.vo P_Local.glob P_Local.v.beautified P_Local.required_vo: P_Local.v Ast.vo Generated.vo Config.vo Model.vo HookSites.vo Erase.vo Shapes.vo P_Hooks.vo
 P_Local.vio: P_Local.v Ast.vio Generated.vio Config.vio Model.vio HookSites.vio Erase.vio Shapes.vio P_Hooks.vio
 P_Local.vos P_Local.vok P_Local.required_vos: P_Local.v Ast.vos Generated.vos Config.vos Model.vos HookSites.vos Erase.vos Shapes.vos P_Hooks.vos
 P_OpVisit.vo P_OpVisit.glob P_OpVisit.v.beautified P_OpVisit.required_vo: P_OpVisit.v Ast.vo Generated.vo Config.vo Model.vo
 P_OpVisit.vio: P_OpVisit.v Ast.vio Generated.vio Config.vio Model.vio
 P_OpVisit.vos P_OpVisit.vok P_OpVisit.required_vos: P_OpVisit.v Ast.vos Generated.vos Config.vos Model.vos
+P_Partial.vo P_Partial.glob P_Partial.v.beautified P_Partial.required_vo: P_Partial.v Ast.vo Generated.vo Config.vo Model.vo Partial.vo
+P_Partial.vio: P_Partial.v Ast.vio Generated.vio Config.vio Model.vio Partial.vio
+P_Partial.vos P_Partial.vok P_Partial.required_vos: P_Partial.v Ast.vos Generated.vos Config.vos Model.vos Partial.vos
 P_Program.vo P_Program.glob P_Program.v.beautified P_Program.required_vo: P_Program.v Ast.vo Generated.vo Config.vo Model.vo
 P_Program.vio: P_Program.v Ast.vio Generated.vio Config.vio Model.vio
 P_Program.vos P_Program.vok P_Program.required_vos: P_Program.v Ast.vos Generated.vos Config.vos Model.vos
@@ -67,6 +76,9 @@ P_SrcMap.vos P_SrcMap.vok P_SrcMap.required_vos: P_SrcMap.v SrcMap.vos
 P_Telemetry.vo P_Telemetry.glob P_Telemetry.v.beautified P_Telemetry.required_vo: P_Telemetry.v Ast.vo Generated.vo Config.vo Model.vo
 P_Telemetry.vio: P_Telemetry.v Ast.vio Generated.vio Config.vio Model.vio
 P_Telemetry.vos P_Telemetry.vok P_Telemetry.required_vos: P_Telemetry.v Ast.vos Generated.vos Config.vos Model.vos
+Partial.vo Partial.glob Partial.v.beautified Partial.required_vo: Partial.v Ast.vo Generated.vo Config.vo Model.vo
+Partial.vio: Partial.v Ast.vio Generated.vio Config.vio Model.vio
+Partial.vos Partial.vok Partial.required_vos: Partial.v Ast.vos Generated.vos Config.vos Model.vos
 Shapes.vo Shapes.glob Shapes.v.beautified Shapes.required_vo: Shapes.v Ast.vo Generated.vo HookSites.vo Erase.vo
 Shapes.vio: Shapes.v Ast.vio Generated.vio HookSites.vio Erase.vio
 Shapes.vos Shapes.vok Shapes.required_vos: Shapes.v Ast.vos Generated.vos HookSites.vos Erase.vos
@@ -109,6 +121,12 @@ Properties/C11.vos Properties/C11.vok Properties/C11.required_vos: Properties/C1
 Properties/C12.vo Properties/C12.glob Properties/C12.v.beautified Properties/C12.required_vo: Properties/C12.v Ast.vo Generated.vo Config.vo Model.vo P_Program.vo P_Inert.vo P_Telemetry.vo
 Properties/C12.vio: Properties/C12.v Ast.vio Generated.vio Config.vio Model.vio P_Program.vio P_Inert.vio P_Telemetry.vio
 Properties/C12.vos Properties/C12.vok Properties/C12.required_vos: Properties/C12.v Ast.vos Generated.vos Config.vos Model.vos P_Program.vos P_Inert.vos P_Telemetry.vos
+Properties/C13.vo Properties/C13.glob Properties/C13.v.beautified Properties/C13.required_vo: Properties/C13.v Ast.vo Generated.vo Config.vo Model.vo Partial.vo P_Partial.vo
+Properties/C13.vio: Properties/C13.v Ast.vio Generated.vio Config.vio Model.vio Partial.vio P_Partial.vio
+Properties/C13.vos Properties/C13.vok Properties/C13.required_vos: Properties/C13.v Ast.vos Generated.vos Config.vos Model.vos Partial.vos P_Partial.vos
+Properties/C14.vo Properties/C14.glob Properties/C14.v.beautified Properties/C14.required_vo: Properties/C14.v Ast.vo Generated.vo Literals.vo P_Literals.vo
+Properties/C14.vio: Properties/C14.v Ast.vio Generated.vio Literals.vio P_Literals.vio
+Properties/C14.vos Properties/C14.vok Properties/C14.required_vos: Properties/C14.v Ast.vos Generated.vos Literals.vos P_Literals.vos
 Properties/C15.vo Properties/C15.glob Properties/C15.v.beautified Properties/C15.required_vo: Properties/C15.v Ast.vo Generated.vo Config.vo Model.vo P_Telemetry.vo
 Properties/C15.vio: Properties/C15.v Ast.vio Generated.vio Config.vio Model.vio P_Telemetry.vio
 Properties/C15.vos Properties/C15.vok Properties/C15.required_vos: Properties/C15.v Ast.vos Generated.vos Config.vos Model.vos P_Telemetry.vos
